@@ -8,14 +8,19 @@ request = the request of `Drivers/Expr.lean` (nodes, roots, args) plus
   "point": ["p/q", …]  row-major rational value of that argument (the sample point)
   "presubst": true|false   substitute the point into the formal Jacobian *before* the symbolic comparison
                             (used for virtual derivative targets: Jacobian at t = 0, symbolic in everything else)
+  "others": {name: ["p/q", …]}   sample values of the other symbolic arguments (used only for the comparison at the point)
+  "jacpt": true|false      also return the formal Jacobian at the point (oracle for trees Lean cannot evaluate)
 roots = [e, d₁, d₂, …]: `e` the expression, `dₖ` trees that claim to be its derivative to "wrt".
 
 answer  {"eshape":[…], "roundtrip":bool, "jac":"ok"|"none:<index>",
          "e": value of e at the point, "d":[value of dₖ at the point …],
-         "checks":[{"shape":bool, "sym":"same"|"differ"|"error", "pt":"same"|"differ"|"kink"|"undefined"|"unknown"|"error",
-                    "at":[i…], "jac":key, "val":key, "what":text} …]}
+         "jacpt": {"shape":[…],"data":[key…]} | {"error":kind,"what":…}     (when requested or needed)
+         "checks":[{"shape":bool, "sym":"same"|"same-modinv"|"differ"|"error",
+                    "pt":"same"|"differ"|"kink"|"undefined"|"unknown"|"error",
+                    "diffs":[[index, jacobian key, value key] …], "what":text} …]}
 `sym = same`: every entry of dₖ has the same normal form as the formal partial derivative (`pderiv`) of the
-corresponding entry of `e` ⇒ equal for all real values of "wrt" (where both are defined, away from kinks).
+corresponding entry of `e` ⇒ equal for all real values of "wrt" (where both are defined, away from kinks);
+`same-modinv`: equal modulo `inv(k)·k = 1`, `pow(k,-n)·kⁿ = 1` (`eqModInv`).
 -/
 open Lean NutilsVerif NutilsVerif.Expr NutilsVerif.C04
 
@@ -38,6 +43,11 @@ def errName : Err → String
   | .undefined w => "undefined:" ++ w
   | .illformed w => "illformed:" ++ w
 
+def ptErrJson : PointErr → Json
+  | .kink w => Json.mkObj [("error", "kink"), ("what", w)]
+  | .undefined w => Json.mkObj [("error", "undefined"), ("what", w)]
+  | .unknown w => Json.mkObj [("error", "unknown"), ("what", w)]
+
 def handle (line : String) : String :=
   match parseRequest line with
   | .error e => "bad-request " ++ e
@@ -48,68 +58,95 @@ def handle (line : String) : String :=
       | some point, some xt, eRes :: dRes =>
         if point.length != xt.data.size then "bad-request point length" else
         let presubst := (r.json.getObjValAs? Bool "presubst").toOption.getD false
+        let wantJac := (r.json.getObjValAs? Bool "jacpt").toOption.getD false
         let xshape := xt.shape
         let xidx := Tensor.indices xshape
-        let pt : List (String × Rat) := (xidx.zip point).map fun (j, q) => (atomKey wrt j, q)
+        let ptX : List (String × Rat) := (xidx.zip point).map fun (j, q) => (atomKey wrt j, q)
+        -- sample values of the other symbolic arguments ("others": {name: ["p/q", …]})
+        let others : List (String × List Rat) := match r.json.getObjVal? "others" with
+          | .ok (.obj kvs) => kvs.toList.filterMap fun (k, v) =>
+              match (fromJson? v : Except String (List String)) with
+              | .ok l => (l.mapM parseRat).map fun qs => (k, qs)
+              | .error _ => none
+          | _ => []
+        let ptOthers : List (String × Rat) := others.flatMap fun (k, qs) =>
+          match r.env.args.lookup k with
+          | some t => ((Tensor.indices t.shape).zip qs).map fun (j, q) => (atomKey k j, q)
+          | none => []
+        -- presubst: only "wrt" is substituted before the symbolic comparison; the point comparison uses all sample values
+        let pt := ptX
+        let ptAll := ptX ++ ptOthers
         -- concrete environment: the same trees at the sample point
         let xconc : T := ⟨xshape, (point.map Poly.ofRat).toArray⟩
-        let envC : Env := { r.env with args := r.env.args.map fun (k, v) => if k == wrt then (k, xconc) else (k, v) }
+        let concArgs : List (String × T) := r.env.args.map fun (k, v) =>
+          if k == wrt then (k, xconc) else
+          match others.lookup k with
+          | some qs => (k, (⟨v.shape, (qs.map Poly.ofRat).toArray⟩ : T))
+          | none => (k, v)
+        let envC : Env := { r.env with args := concArgs }
         let concs := r.roots.map fun id => evalRef envC id
         match eRes with
         | .error e => (Json.mkObj [("error", errName e)]).compress
         | .ok E =>
           let eidx := Tensor.indices E.shape
-          -- formal Jacobian of the symbolic value of e
-          let jac : List (List Nat × List (List Nat × Option Poly)) := eidx.map fun i =>
+          -- formal Jacobian of the symbolic value of e: entries (index i ++ j, ∂E[i]/∂x[j])
+          let jac : List (List Nat × Option Poly) := eidx.flatMap fun i =>
             let p := E.get i
-            (i, xidx.map fun j => (j, pderiv fuel (atomKey wrt j) p))
-          let jacOk := jac.findSome? fun (i, row) => row.findSome? fun (j, d) => if d.isNone then some (i ++ j) else none
+            xidx.map fun j => (i ++ j, pderiv fuel (atomKey wrt j) p)
+          let jacNone := jac.findSome? fun (ij, d) => if d.isNone then some ij else none
           let rt := E.data.all roundTrip
-          let substJ (p : Poly) : Except PointErr Poly := evalAt fuel pt p
-          let checks := (dRes.zip (concs.drop 1)).map fun (dr, dc) =>
+          -- symbolic comparison of every candidate derivative
+          let syms : List (Except String (T × String)) := dRes.map fun dr =>
             match dr with
-            | .error e => Json.mkObj [("shape", false), ("sym", "error"), ("pt", "error"), ("what", errName e)]
+            | .error e => .error (errName e)
             | .ok D =>
-              let shapeOk := D.shape == E.shape ++ xshape
-              if !shapeOk then Json.mkObj [("shape", false), ("sym", "error"), ("pt", "error"), ("what", s!"shape {D.shape} expected {E.shape ++ xshape}")] else
-              -- symbolic comparison
-              let modinv := jac.any fun (i, row) => row.any fun (j, d) => match d with
-                | some dp => !presubst && !(dp == D.get (i ++ j))
-                | none => false
-              let symDiff := jac.findSome? fun (i, row) => row.findSome? fun (j, d) =>
+              if D.shape != E.shape ++ xshape then .error s!"shape {D.shape} expected {E.shape ++ xshape}" else
+              let codes := jac.map fun (ij, d) =>
                 match d with
-                | none => some (i ++ j, "none")
+                | none => 0
                 | some dp =>
-                  if presubst then
-                    match substJ dp with
-                    | .ok v => if v == D.get (i ++ j) || eqModInv 6 v (D.get (i ++ j)) then none else some (i ++ j, v.key)
-                    | .error _ => some (i ++ j, "point-error")
-                  else if dp == D.get (i ++ j) || eqModInv 6 dp (D.get (i ++ j)) then none else some (i ++ j, dp.key)
-              match symDiff with
-              | none => Json.mkObj [("shape", true), ("sym", if modinv then "same-modinv" else "same"), ("pt", "same")]
-              | some (at0, _) =>
-                -- comparison at the sample point
-                match dc with
-                | .error e => Json.mkObj [("shape", true), ("sym", "differ"), ("pt", (match e with | .undefined _ => "undefined" | _ => "error")), ("at", toJson at0), ("what", errName e)]
-                | .ok DC =>
-                  let all : List (String × List Nat × String × String) := jac.flatMap fun (i, row) => row.filterMap fun (j, d) =>
-                    match d with
-                    | none => some ("unknown", i ++ j, "none", (DC.get (i ++ j)).key)
-                    | some dp =>
-                      match substJ dp with
-                      | .ok v => if v == DC.get (i ++ j) then none else some ("differ", i ++ j, v.key, (DC.get (i ++ j)).key)
-                      | .error (.kink w) => some ("kink", i ++ j, w, "")
-                      | .error (.undefined w) => some ("undefined", i ++ j, w, "")
-                      | .error (.unknown w) => some ("unknown", i ++ j, w, "")
-                  -- the worst status wins: a difference must not hide behind a kink of another entry
-                  let res := ["differ", "unknown", "undefined", "kink"].findSome? fun st => all.find? (·.1 == st)
-                  match res with
-                  | none => Json.mkObj [("shape", true), ("sym", "differ"), ("pt", "same"), ("at", toJson at0)]
-                  | some (st, at1, a, b) => Json.mkObj [("shape", true), ("sym", "differ"), ("pt", st), ("at", toJson at1), ("jac", a), ("val", b)]
+                  let lhs? : Option Poly := if presubst then (match evalAt false fuel pt dp with | .ok v => some v | .error _ => none) else some dp
+                  match lhs? with
+                  | none => 0
+                  | some lhs => if lhs == D.get ij then 2 else if eqModInv 6 lhs (D.get ij) then 1 else 0
+              .ok (D, if codes.all (· == 2) then "same" else if codes.all (· ≥ 1) then "same-modinv" else "differ")
+          let needPt := wantJac || syms.any fun s => match s with | .ok (_, "differ") => true | .error _ => true | _ => false
+          -- the formal Jacobian at the sample point
+          let jacPt : List (List Nat × Except PointErr Poly) :=
+            if needPt then jac.map fun (ij, d) =>
+              match d with
+              | none => (ij, .error (.unknown "not differentiable by the rule table"))
+              | some dp => (ij, evalAt true fuel ptAll dp)
+            else []
+          let checks := (syms.zip (concs.drop 1)).map fun (s, dc) =>
+            match s with
+            | .error w => Json.mkObj [("shape", !(w.startsWith "shape")), ("sym", "error"), ("pt", "error"), ("what", w)]
+            | .ok (_, "differ") =>
+              match dc with
+              | .error e => Json.mkObj [("shape", true), ("sym", "differ"), ("pt", (match e with | .undefined _ => "undefined" | _ => "error")), ("what", errName e)]
+              | .ok DC =>
+                let all : List (String × List Nat × String × String) := jacPt.filterMap fun (ij, v) =>
+                  match v with
+                  | .ok v => if v == DC.get ij then none else some ("differ", ij, v.key, (DC.get ij).key)
+                  | .error (.kink w) => some ("kink", ij, w, "")
+                  | .error (.undefined w) => some ("undefined", ij, w, "")
+                  | .error (.unknown w) => some ("unknown", ij, w, "")
+                -- the worst status wins: a difference must not hide behind a kink of another entry
+                let worst := (["differ", "unknown", "undefined", "kink"].find? fun st => all.any (·.1 == st)).getD "same"
+                let diffs := ((all.filter (·.1 == worst)).take 64).map fun (_, ij, a, b) => Json.arr #[toJson ij, Json.str a, Json.str b]
+                Json.mkObj [("shape", true), ("sym", "differ"), ("pt", worst), ("diffs", Json.arr diffs.toArray)]
+            | .ok (_, st) => Json.mkObj [("shape", true), ("sym", st), ("pt", "same")]
+          let jacJson : Json :=
+            if !needPt then Json.null else
+            match jacPt.findSome? fun (_, v) => match v with | .error e => some e | .ok _ => none with
+            | some e => ptErrJson e
+            | none => Json.mkObj [("shape", toJson (E.shape ++ xshape)),
+                ("data", toJson (jacPt.map fun (_, v) => match v with | .ok p => p.key | .error _ => "?"))]
           (Json.mkObj [("eshape", toJson E.shape), ("roundtrip", rt),
-            ("jac", match jacOk with | none => "ok" | some i => s!"none:{i}"),
+            ("jac", match jacNone with | none => "ok" | some i => s!"none:{i}"),
             ("e", resultJson (concs.headD (.error (.illformed "no roots")))),
             ("d", Json.arr ((concs.drop 1).map resultJson).toArray),
+            ("jacpt", jacJson),
             ("checks", Json.arr checks.toArray)]).compress
       | _, _, _ => "bad-request point/wrt/roots"
     | _, _ => "bad-request wrt/point missing"
